@@ -121,11 +121,6 @@ theorem SysAll.exchange {cfg : Cfg} {w : World α} {U A : List Nat} {c o : Nat} 
   · intro d hd hdc hdo xs hx
     exact hs.ok.holds_other2 hc ho hf hvc' hvo' hd hdc hdo hx
 
-/-- a world is determined by its header map when nothing else differs -/
-theorem world_hdr_ext {w : World α} {h1 h2 : Nat → Vec} (h : ∀ x, h1 x = h2 x) : ({ w with hdr := h1 } : World α) = { w with hdr := h2 } := by
-  have : h1 = h2 := funext h
-  rw [this]
-
 /-- the model program of the O(1) swap is exactly the two-header rewrite -/
 theorem swapAllocation_run (cfg : Cfg) (c o : Nat) (hco : c ≠ o) (w : World α) :
     (swapAllocation c o >>= fun _ => maybeSwapAlloc cfg c o) w =
